@@ -16,6 +16,8 @@ SPEC = os.path.join(V.SPEC, "Layout")
 # segments (the define-seg form does) has no segment to go to and is rejected
 PRELUDE = '.define segment { name = "default" start = $2000 }\n.const cv = 5\n.const sv = "z"\n.macro mm(a) { ldx #a }\ntbl: nop\n'
 INC = ".const iv = 9\nivl: rts\n"
+# the imported file of the form err-both: a comment as long as the prelude, then the same erroneous statement
+INC2 = "/*" + "-" * (len(PRELUDE) - 4) + "*/" + ".byte\n"
 
 
 def cased(s, casing):
@@ -70,21 +72,21 @@ def main(tier):
         if form not in canon_id:
             cid = "can-" + form
             src = PRELUDE + render(v["toks"], canonical=True) + "\n"
-            cases.append({"id": cid, "files": {"main.asm": src, "inc.asm": INC}, "pc": 0x2000, "want": ["segments", "symbols"], "max_passes": 40})
+            cases.append({"id": cid, "files": {"main.asm": src, "inc.asm": INC, "inc2.asm": INC2}, "pc": 0x2000, "want": ["segments", "symbols"], "max_passes": 40})
             canon_id[form] = cid
             meta[cid] = src
         src = PRELUDE + render(v["toks"]) + (v["v"]["fill"] if v["v"]["kind"] == "tail" else "\n")
         if v["v"]["kind"] == "crlf":
             import re
             src = re.sub(r"(?<!\r)\n", "\r\n", src)
-        cases.append({"id": i, "files": {"main.asm": src, "inc.asm": INC if v["v"]["kind"] != "crlf" else INC.replace("\n", "\r\n")}, "pc": 0x2000, "want": ["segments", "symbols"], "max_passes": 40})
+        cases.append({"id": i, "files": {"main.asm": src, "inc.asm": INC if v["v"]["kind"] != "crlf" else INC.replace("\n", "\r\n"), "inc2.asm": INC2}, "pc": 0x2000, "want": ["segments", "symbols"], "max_passes": 40})
         meta[i] = src
     obs, p = V.run_harness("asmdrive", cases, "C08-drive")
     if len(obs) != len(cases):
         raise V.ToolError("asmdrive produced %d of %d observations: %s" % (len(obs), len(cases), p.stderr[-2000:]))
     omap = {o["id"]: o for o in obs}
     for form, cid in canon_id.items():
-        if not omap[cid]["ok"]:
+        if not omap[cid]["ok"] and not form.startswith("err-"):
             raise V.ToolError("canonical spelling of form %s does not assemble: %r -> %s" % (form, meta[cid], omap[cid]["parse_diags"] + omap[cid]["diags"]))
     recs = []
     for i, v in enumerate(variants, 1):
